@@ -152,3 +152,53 @@ def np_str(msg):
     """the frame as numpy.str_ - what iterating over a numpy array of hex strings yields (a str subclass)."""
     import numpy as np
     return np.str_(msg)
+
+
+def source_words(rel_paths=None):
+    """literals that occur in the source of the tree under test (a fuzzer's dictionary, used exhaustively): returns a dict
+    with 'ints' (set of int constants), 'strs' (set of str constants), 'floats'.  Code that treats one particular
+    address, call sign, field value or angle specially has to write that value down; values that appear nowhere in the
+    source cannot be special.  rel_paths are relative to <repo>/src/pyModeS (default: every .py and .pyx file)."""
+    import ast
+    import os
+    import re
+    from engine import loader
+    root = os.path.join(loader.SRC, "pyModeS")
+    files = []
+    if rel_paths is None:
+        for d, _, fs in os.walk(root):
+            files += [os.path.join(d, f) for f in fs if f.endswith((".py", ".pyx"))]
+    else:
+        files = [os.path.join(root, r) for r in rel_paths]
+    ints, strs, floats = set(), set(), set()
+    for fn in sorted(files):
+        try:
+            txt = open(fn).read()
+        except OSError:
+            continue
+        if fn.endswith(".pyx"):
+            for m in re.finditer(r"0[xX][0-9a-fA-F]+|\b\d+\.\d+\b|\b\d+\b", txt):
+                t = m.group(0)
+                try:
+                    (floats if "." in t else ints).add(float(t) if "." in t else (int(t, 16) if t[:2].lower() == "0x" else int(t, 10)))
+                except ValueError:
+                    pass
+            for m in re.finditer(r"'([^'\n]{1,12})'|\"([^\"\n]{1,12})\"", txt):
+                strs.add(m.group(1) or m.group(2))
+            continue
+        try:
+            tree = ast.parse(txt)
+        except SyntaxError:
+            continue
+        for node in ast.walk(tree):
+            if isinstance(node, ast.Constant):
+                v = node.value
+                if isinstance(v, bool) or v is None:
+                    continue
+                if isinstance(v, int):
+                    ints.add(v)
+                elif isinstance(v, float):
+                    floats.add(v)
+                elif isinstance(v, str) and 1 <= len(v) <= 12:
+                    strs.add(v)
+    return {"ints": ints, "strs": strs, "floats": floats}
